@@ -240,7 +240,11 @@ def pairs():
              spec("BCHCodeEncoder", mu=3, delta=3), spec("BCHCodeEncoder", mu=3, delta=7),
              spec("ReedMullerCodeEncoder", order=1, length_param=3),
              spec("LinearBlockCodeEncoder", generator_matrix=T([[1, 1, 0, 1, 0, 0, 1], [0, 1, 1, 0, 1, 0, 1], [1, 1, 1, 0, 0, 1, 0]])),
-             spec("SystematicLinearBlockCodeEncoder", parity_submatrix=T([[1, 1, 0], [0, 1, 1], [1, 0, 1]]), information_set=[0, 2, 5])]
+             spec("SystematicLinearBlockCodeEncoder", parity_submatrix=T([[1, 1, 0], [0, 1, 1], [1, 0, 1]]), information_set=[0, 2, 5]),
+             # low-rate codes whose covering radius exceeds (n-k)/2: deep cosets have heavy leaders
+             spec("SystematicLinearBlockCodeEncoder", parity_submatrix=T([[1, 1, 0], [0, 1, 1]])),
+             spec("SystematicLinearBlockCodeEncoder", parity_submatrix=T([[1, 1, 0, 1, 0], [0, 1, 1, 0, 1], [1, 0, 1, 1, 1]])),
+             spec("LinearBlockCodeEncoder", generator_matrix=T([[1, 0, 1, 1, 0, 1, 1, 0, 1], [0, 1, 1, 0, 1, 1, 0, 1, 1]]))]
     bigger = [spec("HammingCodeEncoder", mu=4, extended=True), spec("BCHCodeEncoder", mu=4, delta=5), spec("BCHCodeEncoder", mu=4, delta=3, information_set="right"),
 ]
     for s in ham + small:
